@@ -1,6 +1,10 @@
 package main
 
 import (
+	"sync/atomic"
+	"sync"
+	"sort"
+	"runtime"
 	"bytes"
 	"bufio"
 	"encoding/binary"
@@ -358,7 +362,101 @@ func runKvs(seed int64, ncalls int, out string, budget int) {
 	}
 }
 
+// runSimpleConc: several clients on the same file of the simple server; the history (invocation and return clocks,
+// call, reply) is judged by a search for a sequential order over the extracted specification.
+func runSimpleConc(seed int64, nclients, nops int, out string) {
+	f, _ := os.Create(out)
+	defer f.Close()
+	w := bufio.NewWriterSize(f, 1<<20)
+	defer w.Flush()
+	rng := rand.New(rand.NewSource(seed))
+	d := NewSDisk(700)
+	srv := simple.MakeNfs(d)
+	fmt.Fprintf(w, "SI\n")
+	h := make([]byte, 8)
+	binary.LittleEndian.PutUint64(h, uint64(2+rng.Intn(3)))
+	mk := func(rg *rand.Rand, id int) sCall {
+		switch rg.Intn(7) {
+		case 0, 1:
+			n := 1 + rg.Intn(40)
+			data := make([]byte, n)
+			for i := range data {
+				data[i] = byte(1 + id%250)
+			}
+			return sCall{proc: "write", h: h, off: 0, cnt: uint64(n), data: data}
+		case 2:
+			return sCall{proc: "setattr", h: h, hasSize: true, size: uint64(rg.Intn(48))}
+		case 3:
+			return sCall{proc: "getattr", h: h}
+		}
+		return sCall{proc: "read", h: h, off: uint64(rg.Intn(3)) * 4, cnt: 64}
+	}
+	// a little sequential history first
+	for i := 1; i <= 3; i++ {
+		c := mk(rng, i)
+		fmt.Fprintln(w, c.line(i))
+		fmt.Fprintln(w, simpleExec(srv, c))
+		fmt.Fprintf(w, "T %d 0 0 1\n", i)
+	}
+	fmt.Fprintf(w, "M conc-begin %d\n", nclients)
+	type ev struct {
+		client   int
+		inv, ret int64
+		c        sCall
+		rep      string
+		id       int
+	}
+	var clock int64
+	var mu sync.Mutex
+	var hist []ev
+	var wg sync.WaitGroup
+	for c := 0; c < nclients; c++ {
+		wg.Add(1)
+		crng := rand.New(rand.NewSource(rng.Int63()))
+		go func(c int) {
+			defer wg.Done()
+			for i := 0; i < nops; i++ {
+				call := mk(crng, 100+c*1000+i)
+				e := ev{client: c, c: call, id: 100 + c*1000 + i, inv: atomic.AddInt64(&clock, 1)}
+				func() {
+					defer func() {
+						if x := recover(); x != nil {
+							e.rep = "X panic"
+						}
+					}()
+					e.rep = simpleExec(srv, call)
+				}()
+				e.ret = atomic.AddInt64(&clock, 1)
+				mu.Lock()
+				hist = append(hist, e)
+				mu.Unlock()
+				if crng.Intn(3) == 0 {
+					runtime.Gosched()
+				}
+			}
+		}(c)
+	}
+	wg.Wait()
+	sort.Slice(hist, func(i, j int) bool { return hist[i].inv < hist[j].inv })
+	for _, e := range hist {
+		fmt.Fprintf(w, "H %d %d %d\n", e.client, e.inv, e.ret)
+		fmt.Fprintln(w, e.c.line(e.id))
+		fmt.Fprintln(w, e.rep)
+	}
+	fmt.Fprintf(w, "M conc-end ok\n")
+	srv.VerifLog().Shutdown()
+}
+
 func init() {
+	extraCmds["simpleconc"] = func(args []string) {
+		fs := flag.NewFlagSet("simpleconc", flag.ExitOnError)
+		seed := fs.Int64("seed", 1, "")
+		nc := fs.Int("clients", 3, "")
+		n := fs.Int("nops", 6, "")
+		out := fs.String("out", "simpleconc.trace", "")
+		fs.Parse(args)
+		runSimpleConc(*seed, *nc, *n, *out)
+	}
 	extraCmds["simple"] = func(args []string) {
 		fs := flag.NewFlagSet("simple", flag.ExitOnError)
 		seed := fs.Int64("seed", 1, "")
